@@ -15,19 +15,20 @@ import (
 
 // Gen is the loaded program plus contracts.
 type Gen struct {
-	repo    string
-	prog    *ssa.Program
-	pkgs    map[string]*ssa.Package // by dir relative to repo ("." for root)
-	tpkgs   map[string]*packages.Package
-	cs      *ContractSet
-	funcs   map[string]*ssa.Function // pkgpath.RelString -> fn
-	contracts map[*ssa.Function]*Contract
+	createInv      map[string]*ssa.Function
+	repo           string
+	prog           *ssa.Program
+	pkgs           map[string]*ssa.Package // by dir relative to repo ("." for root)
+	tpkgs          map[string]*packages.Package
+	cs             *ContractSet
+	funcs          map[string]*ssa.Function // pkgpath.RelString -> fn
+	contracts      map[*ssa.Function]*Contract
 	ifaceContracts map[string]*Contract // "pkgpath.T.M"
-	concreteTypes []types.Type
-	stable  map[string]bool // heap var names that jsEffect does not change
-	jsPreserved map[string]bool
-	overlaySrc map[string]string
-	loadErrs []string
+	concreteTypes  []types.Type
+	stable         map[string]bool // heap var names that jsEffect does not change
+	jsPreserved    map[string]bool
+	overlaySrc     map[string]string
+	loadErrs       []string
 }
 
 var goEnv []string
@@ -168,6 +169,12 @@ func loadAll(repo string) (*Gen, error) {
 		for _, cl := range c.Assigns {
 			bind(cl)
 		}
+		for _, cl := range c.Observe {
+			bind(cl)
+		}
+		for _, cl := range c.ReplayAssume {
+			bind(cl)
+		}
 		for _, ls := range c.Loops {
 			for _, cl := range ls.Invariants {
 				bind(cl)
@@ -176,6 +183,41 @@ func loadAll(repo string) (*Gen, error) {
 				bind(ls.Decreases)
 			}
 		}
+	}
+	resolveTF := func(list []string, into map[string]bool) {
+		tmp := newEmitter(g)
+		for _, ent := range list {
+			i := strings.Index(ent, "|")
+			dir, tf := ent[:i], ent[i+1:]
+			sp := g.pkgs[dir]
+			j := strings.LastIndex(tf, ".")
+			if sp == nil || j < 0 {
+				cs.Errors = append(cs.Errors, "cannot resolve field "+tf)
+				continue
+			}
+			h, err := g.lookupField(tmp, sp, tf[:j], tf[j+1:])
+			if err != nil {
+				cs.Errors = append(cs.Errors, err.Error())
+				continue
+			}
+			into[h] = true
+		}
+	}
+	resolveTF(cs.Stable, g.stable)
+	resolveTF(cs.JSPreserved, g.jsPreserved)
+	g.createInv = map[string]*ssa.Function{}
+	for _, ci := range cs.CreateInv {
+		sp := g.pkgs[ci[0]]
+		if sp == nil {
+			continue
+		}
+		obj := sp.Pkg.Scope().Lookup(ci[1])
+		fn := sp.Func(ci[2])
+		if obj == nil || fn == nil {
+			cs.Errors = append(cs.Errors, "createinv: unknown type or function: "+ci[1]+" "+ci[2])
+			continue
+		}
+		g.createInv[typeKey(obj.Type())] = fn
 	}
 	for _, cl := range cs.Axioms {
 		sp := g.pkgs[cl.Owner.PkgDir]
@@ -222,4 +264,53 @@ func (g *Gen) lookupField(e *Emitter, sp *ssa.Package, tname, fname string) (str
 		}
 	}
 	return "", fmt.Errorf("field %s.%s not found", tname, fname)
+}
+
+// ifaceImpls returns, for an interface contract "iface T.M", one derived contract per concrete
+// implementation in the verified packages; each implementation is checked against the interface
+// contract with self bound to the boxed receiver.
+func (g *Gen) ifaceImpls(ic *Contract) []*Contract {
+	sp := g.pkgs[ic.PkgDir]
+	tm := strings.TrimPrefix(ic.Func, "iface ")
+	i := strings.LastIndex(tm, ".")
+	tn, mn := tm[:i], tm[i+1:]
+	obj := sp.Pkg.Scope().Lookup(tn)
+	if obj == nil {
+		return nil
+	}
+	iface, ok := obj.Type().Underlying().(*types.Interface)
+	if !ok {
+		return nil
+	}
+	var out []*Contract
+	for _, c := range g.concreteTypes {
+		if !types.Implements(c, iface) {
+			continue
+		}
+		// skip pointer types whose base type already implements the interface (promoted through *T)
+		if p, ok := c.(*types.Pointer); ok && types.Implements(p.Elem(), iface) {
+			continue
+		}
+		ms := g.prog.MethodSets.MethodSet(c)
+		sel := ms.Lookup(sp.Pkg, mn)
+		if sel == nil {
+			continue
+		}
+		fn := g.prog.MethodValue(sel)
+		if fn == nil || len(fn.Blocks) == 0 {
+			continue
+		}
+		if fn.Synthetic != "" {
+			// wrapper for a promoted method (embedded type): the embedded implementation is checked itself
+			continue
+		}
+		d := *ic
+		d.Fn = fn
+		d.IsIface = false
+		d.IfaceOf = ic
+		d.Func = fn.RelString(fn.Pkg.Pkg)
+		d.Errors = nil
+		out = append(out, &d)
+	}
+	return out
 }
